@@ -171,6 +171,12 @@ def make_ops():
         'call_none': lambda w, p: call.do_call(w['cns'], method='none', purity=0.8),
         'genemetrics': lambda w, p: reports.do_genemetrics(w['cnr'], None, 0.2, 2, is_sample_female=True),
         'genemetrics_seg': lambda w, p: reports.do_genemetrics(w['cnr'], w['cns'], 0.2, 2, is_sample_female=True),
+        # segments that carry extra columns (segmetrics / call output): gene_metrics_by_segment adds those columns to ITS
+        # bin table -- which must be a private copy also in the sex combinations where shift_xx has nothing to shift
+        'genemetrics_seg_extra_female': lambda w, p: reports.do_genemetrics(w['cnr'], w['cns_sm'], 0.2, 2, is_sample_female=True),
+        'genemetrics_seg_extra_male_hapx': lambda w, p: reports.do_genemetrics(w['cnr'], w['cns_sm'], 0.2, 2,
+                                                                              is_haploid_x_reference=True, is_sample_female=False),
+        'genemetrics_seg_extra_male': lambda w, p: reports.do_genemetrics(w['cnr'], w['cns_sm'], 0.2, 2, is_sample_female=False),
         'breaks': lambda w, p: reports.do_breaks(w['cnr'], w['cns'], 1),
         'bintest': lambda w, p: bintest.do_bintest(w['cnr'], w['cns'], alpha=0.5),
         'bintest_noseg': lambda w, p: bintest.do_bintest(w['cnr'], None, alpha=0.5, target_only=True),
@@ -480,24 +486,40 @@ def check_ensure_path(ck, scratch):
         other = os.path.join(os.path.dirname(d), 'bystander.txt')
         os.makedirs(os.path.dirname(d), exist_ok=True)
         open(other, 'w').write('bystander')
-        for c in cs:
-            core.ensure_path(p)
-            # the real writer: a one-row table whose gene column carries the content marker
-            tabio.write(GA(pd.DataFrame([('chr1', 0, 1, c)], columns=['chromosome', 'start', 'end', 'gene'])), p)
+        # how the caller spells the path: absolute; a bare file name / "./name" in the working directory; a relative
+        # path with a directory part -- the discipline is the same for all of them
+        style = ('abs', 'bare', 'dot', 'rel')[idx % 4]
+        cwd = os.getcwd()
+        try:
+            if style in ('bare', 'dot'):
+                os.makedirs(d, exist_ok=True)
+                os.chdir(d)
+                pw = 'out.cnr' if style == 'bare' else './out.cnr'
+            elif style == 'rel':
+                os.chdir(os.path.dirname(d))
+                pw = os.path.join('sub', 'out.cnr')
+            else:
+                pw = p
+            for c in cs:
+                core.ensure_path(pw)
+                # the real writer: a one-row table whose gene column carries the content marker
+                tabio.write(GA(pd.DataFrame([('chr1', 0, 1, c)], columns=['chromosome', 'start', 'end', 'gene'])), pw)
+        finally:
+            os.chdir(cwd)
         got = {}
         for fn in os.listdir(d):
             body = open(os.path.join(d, fn)).read()
             key = 0 if fn == 'out.cnr' else int(fn.rsplit('.', 1)[1])
             # content marker: either the raw pre-existing text or the gene field of the written table
             got[key] = body if body.startswith('pre') or body in ('old', 'x') else body.strip().split('\n')[-1].split('\t')[3]
-        ck.count(['ensure_path', pre, cs], nontrivial=len(cs) > 1 or bool(pre), cls='ensure_path')
+        ck.count(['ensure_path', style, pre, cs], nontrivial=len(cs) > 1 or bool(pre), cls='ensure_path')
         # direct oracle: nothing lost, k new files, newest at p, bystander intact
         contents_expected = sorted(list(pre.values()) + cs)
         ok = (sorted(got.values()) == contents_expected and got.get(0) == cs[-1]
               and all(got.get(j) == c for j, c in pre.items() if j != 0)
               and open(other).read() == 'bystander')
         if not ok:
-            ck.violation('ensure_path + write lost or overwrote a file', {'pre': pre, 'writes': cs}, code=got,
+            ck.violation('ensure_path + write lost or overwrote a file (path spelled %s)' % style, {'pre': pre, 'writes': cs, 'style': style}, code=got,
                          clause='C10_no_overwrite')
         elif isinstance(m, Err) or got != {int(j): c for j, c in m}:
             ck.tie_break('model write_rounds differs from the real directory', {'pre': pre, 'writes': cs}, code=got, model=m)
